@@ -16,7 +16,7 @@ const id = "C17"
 
 // "touch": local reads under the file context of a partly downloaded file, the way the
 // download handler reads it (manifest and intermediate chunks are local, data chunks may be missing)
-var kinds = []string{"upload", "fetch", "fetch", "fetch", "fetch", "touch", "touch", "read", "delete", "delete", "restart", "restart", "stray"}
+var kinds = []string{"upload", "fetch", "fetch", "fetch", "fetch", "touch", "touch", "read", "delete", "delete", "restart", "restart", "stray", "discover", "discover"}
 
 const sigBit0 = "C17/non-data-chunk-read-sets-bit-0"
 
@@ -139,6 +139,22 @@ func run(c nlhist.Case, strict bool) (sig string, err error, st stats) {
 			}
 			_, _ = w.N.ReadUnderRoot(f.Ref, f.Entry) // errors (missing data chunks) are expected
 			_, _ = w.N.ReadUnderRoot(f.Ref, f.Ref)   // the manifest root read as bytes: a non-data chunk
+		case "discover":
+			// a peer's chunk-info response about a file the node has a record of arrives: the
+			// source node reports that it holds every data chunk
+			if !f.Known {
+				continue
+			}
+			vec := make([]byte, (len(f.Distinct)+7)/8)
+			for j := range f.Distinct {
+				vec[j/8] |= 1 << uint(j%8)
+			}
+			if e := w.N.DeliverChunkInfoResp(w.S.Addr, f.Ref, vec); e != nil {
+				return "C17/harness", fmt.Errorf("step %d deliver chunk-info response: %v", i, e), st
+			}
+			if len(w.N.CI.GetChunkInfoDiscoverOverlays(f.Ref)) > 0 {
+				st.classes["discovery-record-created"] = true
+			}
 		case "stray":
 			// a chunk that is not part of the file is reported for it (a peer can make the node do that)
 			if !f.Known {
@@ -202,7 +218,7 @@ func run(c nlhist.Case, strict bool) (sig string, err error, st stats) {
 func TestC17_AvailabilityNeverOverclaims(t *testing.T) {
 	r := evid.Get(id)
 	evid.Finish(t, r)
-	r.SetRule("rapid: node-lite histories over 2-4 files (1-4 data chunks, shared/repeated): uploads, cached downloads of chunk subsets from a source node, local reads of partly downloaded files under the file context (manifest, intermediate and data chunks), chunks of another file reported for a file, HTTP reads, deletes, restarts; oracle after every step: in the node's own availability record (server overlays and file list) bit i set => the i-th distinct data chunk (order recomputed by the harness from the source node) is in the local store, vector length == number of distinct data chunks, all bits set => all data chunks stored; after a delete (and after later restarts) no availability, discovery or source record in memory and no state-store key containing the reference; non-trivial = a partial download or a local read of a partly downloaded file; distinct by hash of the case")
+	r.SetRule("rapid: node-lite histories over 2-4 files (1-4 data chunks, shared/repeated): uploads, cached downloads of chunk subsets from a source node, local reads of partly downloaded files under the file context (manifest, intermediate and data chunks), chunks of another file reported for a file, a peer's chunk-info response for a known file delivered through the protocol handler (creates a discovery record), HTTP reads, deletes, restarts; oracle after every step: in the node's own availability record (server overlays and file list) bit i set => the i-th distinct data chunk (order recomputed by the harness from the source node) is in the local store, vector length == number of distinct data chunks, all bits set => all data chunks stored; after a delete (and after later restarts) no availability, discovery or source record in memory and no state-store key containing the reference; non-trivial = a partial download, a local read of a partly downloaded file, or (second generator: two files, a download/peer-response/restart/delete backbone with free ops in between) a discovery record created; distinct by hash of the case")
 	if evid.Known(sigBit0) {
 		wc := nlhist.Case{Files: c2(), Ops: []nlhist.Op{{K: "fetch", F: 0, Arg: 6}, {K: "touch", F: 0}}}
 		if sg, err, _ := run(wc, true); err != nil && sg == sigBit0 {
@@ -221,6 +237,50 @@ func TestC17_AvailabilityNeverOverclaims(t *testing.T) {
 			cls = append(cls, k)
 		}
 		r.Case(evid.Hash64(c), st.nt, cls...)
+		r.Sample(c)
+	})
+}
+
+// TestC17_DiscoveryDense: two files and few op kinds around a backbone "download, a peer's
+// response recorded, restart, delete" whose steps are each kept with probability 3/4 and are
+// separated by 0-2 free ops, so that the whole life cycle of a discovery record in one history is
+// the common case rather than the rare one.
+func TestC17_DiscoveryDense(t *testing.T) {
+	r := evid.Get(id)
+	evid.Finish(t, r)
+	evid.Checks(60)
+	rapid.Check(t, func(t *rapid.T) {
+		free := nlhist.Gen(t, nlhist.GenOptions{MaxFiles: 2, MaxOps: 12, MaxBlocks: 2,
+			Kinds: []string{"fetch", "fetch", "discover", "discover", "restart", "restart", "delete", "upload", "touch"}})
+		c := nlhist.Case{Files: free.Files}
+		f := rapid.IntRange(0, 1).Draw(t, "f")
+		backbone := []nlhist.Op{
+			{K: "fetch", F: f, Arg: rapid.SampledFrom([]int{0, 0, 0, 1}).Draw(t, "mask")},
+			{K: "discover", F: f}, {K: "fetch", F: f}, {K: "restart"}, {K: "delete", F: f}, {K: "restart"}}
+		rest := free.Ops
+		for _, b := range backbone {
+			n := rapid.IntRange(0, 2).Draw(t, "gap")
+			if n > len(rest) {
+				n = len(rest)
+			}
+			c.Ops = append(c.Ops, rest[:n]...)
+			rest = rest[n:]
+			if rapid.IntRange(0, 3).Draw(t, "keep") != 0 {
+				c.Ops = append(c.Ops, b)
+			}
+		}
+		sig, err, st := run(c, false)
+		if err != nil {
+			t.Fatalf("%s", evid.Violation(id, sig, fmt.Sprintf("%v\ncase=%+v", err, c)))
+		}
+		cls := []string{"discovery-dense"}
+		for k := range st.classes {
+			cls = append(cls, k)
+		}
+		if st.classes["discovery-record-created"] && st.classes["restart"] && st.classes["delete"] {
+			cls = append(cls, "discovery-restart-delete")
+		}
+		r.Case(evid.Hash64("disc", c), st.nt || st.classes["discovery-record-created"], cls...)
 		r.Sample(c)
 	})
 }
